@@ -16,7 +16,7 @@ pub struct C20;
 
 const MODES: &[&str] = &["run", "file", "stdout"];
 const PROGS: &[&str] = &["accepted", "rejected", "fails-assert", "reaches-unreachable"];
-const FILE_STATES: &[&str] = &["absent", "present", "missing-dir", "readonly-dir", "is-a-directory"];
+const FILE_STATES: &[&str] = &["absent", "present", "present-larger", "missing-dir", "readonly-dir", "is-a-directory"];
 
 #[derive(Clone, Debug)]
 struct Cell {
@@ -176,6 +176,16 @@ fn judge_cell(c: &Cell, seed: u64, case: u64, st: &mut Stats) {
             let _ = std::fs::write(&p, b"-- OLD CONTENT --\n");
             (p, Some(b"-- OLD CONTENT --\n".to_vec()))
         }
+        "present-larger" => {
+            // an earlier, larger build result: the new program must replace it completely
+            let p = work.join("out.lua");
+            let mut old = Vec::new();
+            while old.len() < 200_000 {
+                old.extend_from_slice(b"local stale = stale_fn(1, 2, 3) -- OLD BUILD --\n");
+            }
+            let _ = std::fs::write(&p, &old);
+            (p, Some(old))
+        }
         "missing-dir" => (work.join("no/such/dir/out.lua"), None),
         "readonly-dir" => {
             let d = work.join("ro");
@@ -272,7 +282,7 @@ fn judge_cell(c: &Cell, seed: u64, case: u64, st: &mut Stats) {
             if now.as_deref() != Some(&expected_bytes[..]) {
                 bad = Some(("driver:file-content", format!("output file has {} bytes, the compiler produced {}", now.map(|b| b.len()).unwrap_or(0), expected_bytes.len())));
             }
-        } else if c.file_state == "present" || c.file_state == "absent" {
+        } else if c.file_state == "present" || c.file_state == "present-larger" || c.file_state == "absent" {
             // all-or-nothing: untouched on failure
             if now != pre_content {
                 bad = Some(("driver:file-touched-on-failure", format!("output path changed although the command failed (now {:?} bytes)", now.map(|b| b.len()))));
@@ -374,7 +384,7 @@ impl Check for C20 {
         }
         Finish {
             level: "fault_enumeration",
-            rule: "exhaustive matrix: {run (lua on PATH = luamon CLI), -o FILE, -o -} x {--require mymod.lua, none} x {--no-std, std} x {accepted, rejected, fails <=>, reaches <!>} x (for -o FILE) {FILE absent, present with old content, in a missing directory, in a read-only directory, is a directory}, 3 program variants per cell (hand-written and generated). Oracle per cell: exit status 0 iff compile (and run) succeed and the output is writable; errors printed; FILE byte-equal to the in-process compilation or untouched on failure; -o - stdout byte-equal; exactly one `require \"mymod\"` call, placed after the preamble marker and not after the first emitted statement, executed once; std-free programs behave the same with and without --no-std. Non-trivial & distinct: matrix cells.".into(),
+            rule: "exhaustive matrix: {run (lua on PATH = luamon CLI), -o FILE, -o -} x {--require mymod.lua, none} x {--no-std, std} x {accepted, rejected, fails <=>, reaches <!>} x (for -o FILE) {FILE absent, present with short old content, present with a larger earlier build result, in a missing directory, in a read-only directory, is a directory}, 3 program variants per cell (hand-written and generated). Oracle per cell: exit status 0 iff compile (and run) succeed and the output is writable; errors printed; FILE byte-equal to the in-process compilation or untouched on failure; -o - stdout byte-equal; exactly one `require \"mymod\"` call, placed after the preamble marker and not after the first emitted statement, executed once; std-free programs behave the same with and without --no-std. Non-trivial & distinct: matrix cells.".into(),
             extra: J::obj().with("matrix_cells", J::Int(cells().len() as i64)),
             assumptions: vec![
                 "the `lua` the driver spawns is the luamon CLI (no real Lua in the sandbox); when running as root a read-only directory is writable, that column then expects success".into(),
